@@ -171,6 +171,10 @@ def asan_reports(san):
             continue
         cls = rest.split()[0] if rest else 'unknown'
         cls = cls.rstrip(':')
+        if rest.startswith('attempting double-free'):
+            cls = 'double-free'
+        elif rest.startswith('attempting free'):
+            cls = 'bad-free'
         if cls == 'SEGV':
             cls = 'SEGV'
         site = repo_frame(block) or (first_frames(block, 1) or ['?'])[0]
